@@ -164,7 +164,7 @@ class PrepWorld(racesim.RaceWorld):
             world.loop_count[name] = world.loop_count.get(name, 0) + 1
             h, kk = world.exec_pos(name)
             f = world.flt
-            if f["kind"] == "plugin" and not world.fault_fired and (f["h"], f["x"]) == (h, kk) and f["p"] == world.tp(h).instance_round():
+            if f["kind"] == "plugin" and not world.fault_fired and (f["h"], f["x"]) == (h, kk) and f["p"] == world.tags.get(id(world.cur_msg)):
                 world.fault_fired = True
                 raise PrepTaskFailure("verif: track plugins cannot be loaded")
             return True
@@ -297,7 +297,7 @@ class PrepWorld(racesim.RaceWorld):
         if rs[0] == "tp" and rd[0] == "ex":
             ev = {"StartTaskLoop": "ERecvStartTaskLoop", "DoTask": "ERecvDoTask", "BenchmarkFailure": "ERecvBenchmarkFailure", "ActorExitRequest": "ERecvExit"}.get(nm)
             return (ev or "ERecv" + nm, rd[1], rd[2])
-        if rs[0] == "drv" and rd[0] == "rc" and nm in ("PreparationComplete", "BenchmarkFailure") and not self.load_phase():
+        if rs[0] == "drv" and rd[0] == "rc" and nm in ("PreparationComplete", "BenchmarkFailure"):
             return ("RcRecv", 0, 0)
         if rs[0] == "rc" and rd[0] == "drv" and nm == "StartBenchmark":
             return ("DRecvStartBenchmark", 0, 0)
@@ -407,11 +407,14 @@ INIT_EX = {"st": "absent", "parent": False, "fut": "none", "task": [0, 0], "time
 class PrepTrace:
     """One preparation phase (+ the load phase as one step) under a schedule, recorded for TraceTrackPrep.tla."""
 
+    SWEEP_LIMIT = 2000
+
     def __init__(self, prep, seed=0):
         self.prep = prep
         self.w = PrepWorld(prep, seed=seed)
         self.events = []
         self.stuck = False
+        self.livelock = False
         self.init = None
 
     def close(self):
@@ -494,7 +497,7 @@ class PrepTrace:
             exs.append(row_ex)
         dinst = sim.actors[D].instance
         drv = {"children": len(dinst.children), "resp": len(dinst.received_responses), "started": w.load_phase()}
-        d2r = [] if w.load_phase() and w.success() else [pm for pm in self._chan(D, RC) if pm["k"] in ("PreparationComplete", "BenchmarkFailure")]
+        d2r = [pm for pm in self._chan(D, RC) if pm["k"] in ("PreparationComplete", "BenchmarkFailure")]
         r2d = [pm for pm in self._chan(RC, D) if pm["k"] == "StartBenchmark"]
         coord = w.coordinator()
         replies = [{"Success": "Success", "BenchmarkFailure": "Failure", "BenchmarkCancelled": "Cancelled"}.get(type(m).__name__, type(m).__name__) for _s, m in w.user_inbox()]
@@ -550,7 +553,10 @@ class PrepTrace:
             if not en:
                 break
             self.do(rnd.choice(en))
-        # deterministic sweep: everything but re-arming wake-ups first
+        # deterministic sweep: everything but wake-ups first, so that every step of the sweep is progress (a wake-up is only taken
+        # when no message and no pool thread is left: it then finds its task finished). The protocol is finite: scenarios of the
+        # sizes used here need < 500 steps; a run that is still busy after SWEEP_LIMIT steps of progress is diagnosed as a livelock
+        # (e.g. a failure message bouncing between two actors) and judged like a run that has come to rest.
         guard = 0
         while True:
             en = self.enabled()
@@ -559,8 +565,10 @@ class PrepTrace:
             first = [d for d in en if d[0] != "wakeup"] or en
             self.do(first[0])
             guard += 1
-            if guard > 20 * max_events:
-                raise tlc.MachineryError("the preparation phase does not become quiescent")
+            if guard > self.SWEEP_LIMIT:
+                self.livelock = True
+                self._log(("Livelock", 0, 0))
+                return followed, skipped
         if self.w.load_phase() and not self.w.success():
             ok = self.w.run_load_phase(rnd)
             if ok:
